@@ -324,6 +324,9 @@ func (j *joiner) joinAV(x, y AV, tag string) AV {
 		if x.K == KFunc && x.Fn == y.Fn {
 			out.Fn = x.Fn
 			out.Bind = x.Bind
+			if x.Fn == nil && len(x.Fns) > 0 && sameFns(x.Fns, y.Fns) {
+				out.Fns = x.Fns
+			}
 		}
 		// symbol: same symbol on both sides keeps it (facts joined below); else a join symbol
 		if x.Sym != 0 && x.Sym == y.Sym {
@@ -700,4 +703,16 @@ func (e *Env) bump(k cellKey) {
 			delete(e.pure, f)
 		}
 	}
+}
+
+func sameFns(a, b []*ssa.Function) bool {
+	if len(a) != len(b) {
+		return false
+	}
+	for i := range a {
+		if a[i] != b[i] {
+			return false
+		}
+	}
+	return true
 }
